@@ -1,4 +1,6 @@
 import SaModel.Lemmas.C16Run
+import SaModel.Lemmas.C16FromType
+import SaModel.Props.C17
 import SaModel.Props.C14
 import SaModel.Props.C15
 import SaModel.Props.C20
@@ -194,6 +196,113 @@ theorem incrementLast_pinned_panics : (incrementLast false false [2147483647] 1)
 theorem element_out_of_range_panics :
     (SS.element ⟨"$", 1, none, .cons (.null "$.a" 0) ⟨"a", true, []⟩ .nil, [none], 1, [true]⟩ 1 (fun b => .ok b)).isPanic = true := by
   decide
+
+/-! ### tracing -/
+
+section Tracing
+open SaModel.Trace
+open SaModel.Lemmas.C16 (idxOK fromTypeLoopN passes nestVec)
+
+/-- `from_samples`, one sample: `x.serialize(TracerSerializer(&mut t))` never unwinds — for EVERY tracer state `t`
+(no invariant) and every serde value `x` (raw key/value streams, tuples of any length, variants of any name) whose
+variant indices stay below the allocation bound of the executable model (`idxOK`, finding #29) -/
+theorem absorb_no_panic (c : Code) (o : Options) (t : Tracer) (x : SVal) (hx : idxOK x = true) (site : String) :
+    absorb c o t x ≠ panic site :=
+  Lemmas.C16.ne_panic_of_isPanic (Lemmas.C16.absorb_np c o x t hx) site
+
+/-- the bound is where the model stops following the code: `ensure_variant` resizes `variants` up to the index
+(finding #29, known: unbounded allocation in the real crate; an explicit `panic "alloc"` in the model) -/
+theorem absorb_huge_variant_index :
+    (absorb .fixed {} (Tracer.new "$" "$") (.unitVariant "E" VARIANT_ALLOC_LIMIT "a")).isPanic = true := by decide
+
+/-- `Tracer::to_schema` (with `to_field` of every node, overwrites included) never unwinds, for every tracer -/
+theorem to_schema_no_panic (o : Options) (t : Tracer) (site : String) : t.to_schema o ≠ panic site :=
+  Lemmas.C16.ne_panic_of_isPanic (Lemmas.C16.to_schema_np o t) site
+
+/-- `SerdeArrowSchema::from_samples` as a whole -/
+theorem fromSamples_no_panic (c : Code) (o : Options) (xs : List SVal) (hx : ∀ x ∈ xs, idxOK x = true) (site : String) :
+    fromSamples c o xs ≠ panic site :=
+  Lemmas.C16.ne_panic_of_isPanic (Lemmas.C16.fromSamples_np c o xs hx) site
+
+example : idxOK (.mapRaw (.value (.int .i32 1) (.key (.int .i8 2) .nil))) = true := by decide
+example : (absorb .fixed {} (Tracer.new "$" "$") (.mapRaw (.value (.int .i32 1) .nil))).isErr = true := by decide
+example : (fromSamples .fixed {} [.record "R" (.cons "a" 0 (.tuple (.cons (.bool true) .nil)) .nil),
+    .record "R" (.cons "a" 0 (.tuple .nil) .nil)]).isOk = true := by decide +kernel
+
+/-- `from_type`: the loop performs at most `budget` passes (`fromTypeLoopN` is the loop instrumented with its pass
+count; its result is the loop's result) -/
+theorem fromTypeLoop_passes_le_budget (c : Code) (o : Options) (ty : Ty) (budget : Nat) (t : Tracer) :
+    (fromTypeLoopN c o ty budget t).1 = fromTypeLoop c o ty budget t ∧ (fromTypeLoopN c o ty budget t).2 ≤ budget :=
+  ⟨Lemmas.C16.fromTypeLoopN_fst c o ty budget t, Lemmas.C16.fromTypeLoopN_le c o ty budget t⟩
+
+/-- a successful loop ends at a complete tracer reached by `k ≤ budget` consecutive passes -/
+theorem fromTypeLoop_ok (c : Code) (o : Options) (ty : Ty) (budget : Nat) (t t' : Tracer)
+    (h : fromTypeLoop c o ty budget t = .ok t') :
+    t'.is_complete = true ∧ ∃ k, k ≤ budget ∧ passes c o ty k t = .ok t' :=
+  Lemmas.C16.fromTypeLoop_ok c o ty budget t t' h
+
+/-- a type that no run of at most `budget` passes completes is not given a schema -/
+theorem fromTypeLoop_exhausted (c : Code) (o : Options) (ty : Ty) (budget : Nat) (t : Tracer)
+    (h : ∀ k, k ≤ budget → ∀ t', passes c o ty k t = .ok t' → t'.is_complete = false) (t' : Tracer) :
+    fromTypeLoop c o ty budget t ≠ .ok t' :=
+  Lemmas.C16.fromTypeLoop_exhausted c o ty budget t h t'
+
+/-- the depth limit cuts every unfolding of a recursive type: more than `MAX_TYPE_DEPTH` nested containers are
+refused with the documented error in the first pass (here: `Vec<Vec<…>>`; `Option` and newtypes do not add depth) -/
+theorem explore_deep (c : Code) (o : Options) (ty : Ty) (k : Nat) (hk : MAX_TYPE_DEPTH + 1 ≤ k) :
+    explore c o (Tracer.new "$" "$") (nestVec k ty) = fail "Too deeply nested type detected" :=
+  Lemmas.C16.explore_deep_vec c o ty k "$" "$" false (by rw [Lemmas.C16.countDots_root]; exact Nat.zero_le _)
+    (by rw [Lemmas.C16.countDots_root]; omega)
+
+theorem fromType_deep_is_error (c : Code) (o : Options) (ty : Ty) (k : Nat) (hk : MAX_TYPE_DEPTH + 1 ≤ k) :
+    (fromType c o (nestVec k ty)).isErr = true := Lemmas.C16.fromType_deep_vec c o ty k hk
+
+example : (fromTypeLoopN .fixed {} (.struct "S" (.cons "a" (.option .bool) .nil)) 100 (Tracer.new "$" "$")).2 = 1 := by
+  decide +kernel
+example : (fromType .fixed {} (nestVec 21 .bool)).isErr = true := fromType_deep_is_error _ _ _ 21 (by decide)
+example : (fromType .fixed {} (.struct "S" (.cons "a" (nestVec 3 .bool) .nil))).isOk = true := by decide +kernel
+
+/-- `explore` on a tracer state `from_type` cannot reach (a union with an unseen slot) does unwind in the model
+(`opt.as_ref().unwrap()` in the variant scan): a no-panic theorem for `explore` needs the invariant "the tracer was
+grown by `explore` from the same type".  OPEN: `explore_no_panic` / `fromType_no_panic` under that invariant
+(notes/C16.md describes it). -/
+theorem explore_unreachable_state_panics :
+    (explore .fixed {} (.union "$" "$" false (.absent .nil)) (.enum "E" (.unit "A" .nil))).isPanic = true := by decide
+
+end Tracing
+
+/-! ### reader construction and iteration -/
+
+section Reader
+open SaModel.Read
+
+/-- `Deserializer::new(fields, views)`: the count / length checks are errors -/
+theorem deserializer_new_no_panic (checkCount : Bool) (nfields : Nat) (viewLens : List Nat) (site : String) :
+    Access.new checkCount nfields viewLens ≠ panic site := by
+  apply Lemmas.C16.ne_panic_of_isPanic
+  unfold Access.new
+  split
+  · rfl
+  · simp only []; split <;> (split <;> rfl)
+
+/-- construction of the column readers over ARBITRARY views, `Deserializer::get(i)`, `DeserializerIterator::next`
+and the bulk `SeqAccess`: whichever index the access layer hands out (`getIdx`, `Iter.step`, `bulk`), reading that
+record — `deserialize_any` or any typed target — never unwinds.  (C17 proves the reads for every index; the access
+layer itself is total: `Access.getIdx`, `Access.Iter.step`, `Access.bulk`, `Access.run` are plain functions.) -/
+theorem deserializer_access_no_panic (a : Arr) (t : Target) (len : Nat) :
+    NoPanic (new Fixes.all a) ∧
+    (∀ i idx, Access.getIdx len i = some idx → NoPanic (readAny Fixes.all a idx) ∧ NoPanic (readAs Fixes.all t a idx)) ∧
+    (∀ (it : Access.Iter) idx, it.step.1 = some idx → NoPanic (readAny Fixes.all a idx) ∧ NoPanic (readAs Fixes.all t a idx)) ∧
+    (∀ idx ∈ Access.bulk len, NoPanic (readAny Fixes.all a idx) ∧ NoPanic (readAs Fixes.all t a idx)) :=
+  ⟨C17.new_no_panic a,
+   fun _ idx _ => ⟨C17.read_no_panic a idx, C17.readAs_no_panic t a idx⟩,
+   fun _ idx _ => ⟨C17.read_no_panic a idx, C17.readAs_no_panic t a idx⟩,
+   fun idx _ => ⟨C17.read_no_panic a idx, C17.readAs_no_panic t a idx⟩⟩
+
+example : Access.new true 2 [3, 4] = fail "Cannot deserialize from arrays with different lengths" := by decide
+example : Access.bulk 3 = [0, 1, 2] := by decide
+
+end Reader
 
 /-! ### collected from the codec and helper models (proved with their properties) -/
 
